@@ -370,7 +370,7 @@ def check_join(left, right, le, re_, is_left, variables):
 
 CSV_ZONES = ['UTC', 'Asia/Kathmandu', 'Etc/GMT+12', 'Asia/Kolkata']
 SAFE = 'qxz #;:!?()[]{}<>=&|*%$@^~`'
-DATELIKE = ['2024-02-30', '2023-13-01', '2021-00-10', '2024-02-30T10:00:00Z', '2024-01-01T25:00:00+00:00', '0000-01-01', '2024-04-31', '2023-02-29']
+DATELIKE = ['2100-02-29', '1900-02-29', '2200-02-29T00:00:00Z', '2024-02-30', '2023-13-01', '2021-00-10', '2024-02-30T10:00:00Z', '2024-01-01T25:00:00+00:00', '0000-01-01', '2024-04-31', '2023-02-29']
 
 
 def csv_quote(s):
